@@ -5,6 +5,54 @@ use crate::script::Seg;
 use crate::send::*;
 use crate::spec;
 
+/// The connection attempt to the selected proxy fails (refused / timed out / reset / no route): the request
+/// fails; it is never sent somewhere else instead (no direct fallback, no second attempt). Shared with C11: "a
+/// proxy is used exactly when …" holds at the address dialled by send() whether or not the proxy answers.
+pub fn proxy_unreachable_cases(sink: &mut Sink) {
+    let schemes = ["http", "https"];
+    let proxies: [Option<&str>; 5] = [None, Some("http://proxy.test:3128"), Some("http://pu:pp@proxy.test"), Some("https://sproxy.test"), Some("https://pu:pp@sproxy.test:8443")];
+    for sc in schemes {
+        for px in proxies.iter().flatten() {
+            for kind in [6u8, 2, 3, 7] {
+                let case = SendCase {
+                    method: "POST".into(),
+                    url: format!("{}://example.com/private?token=1", sc),
+                    follow: true,
+                    max_redirections: 5,
+                    max_headers: 100,
+                    compress: false,
+                    proxy: ProxyCfg { http: Some(px.to_string()), https: Some(px.to_string()), no_proxy: vec![] },
+                    params: vec![],
+                    pre: vec![Step::Header("Authorization".into(), b"Bearer s3cret-token".to_vec())],
+                    body: BodyR::Text("secret body".into()),
+                    post: vec![],
+                    hops: vec![(vec![Seg::Data(OK_RESPONSE.to_vec())], None), (vec![Seg::Data(OK_RESPONSE.to_vec())], None)],
+                    plain_tunnel: false,
+                };
+                set_dial_failure(Some((0, kind)));
+                let obs = run_send(&case);
+                set_dial_failure(None);
+                let pu = url::Url::parse(px).unwrap();
+                let o: Result<(), (String, String)> = (|| {
+                    let h = obs.hops.first().ok_or(("no-dial".to_string(), "no connection attempt".to_string()))?;
+                    if h.dial.host.trim_matches(|c| c == '[' || c == ']') != pu.host_str().unwrap() || h.dial.port != pu.port_or_known_default().unwrap() {
+                        return Err(("wrong-peer-proxy-down".into(), format!("first dial {}:{}", h.dial.host, h.dial.port)));
+                    }
+                    if obs.hops.len() != 1 {
+                        let d = &obs.hops[1];
+                        return Err(("fallback-after-proxy-dial-failure".into(), format!("the proxy {} could not be reached; the client then dialled {}://{}:{} and wrote {} bytes there", px, d.dial.scheme, d.dial.host, d.dial.port, d.written.len())));
+                    }
+                    match &obs.fin {
+                        FinalObs::Err(_) => Ok(()),
+                        f => Err(("proxy-dial-failure-not-reported".into(), format!("{:?}", f))),
+                    }
+                })();
+                sink.push(Case { tags: vec!["mode=proxy-unreachable".into(), format!("scheme={}", sc), format!("kind={}", kind)], op: "nop proxy-unreachable".into(), impl_line: "nop".into(), oracle: o });
+            }
+        }
+    }
+}
+
 pub fn generate(seed: u64, tier: &str, sink: &mut Sink) {
     let thorough = tier == "thorough";
     // "every request": also the ones sent while following redirects (peer, target form and Host of each hop)
@@ -169,48 +217,7 @@ pub fn generate(seed: u64, tier: &str, sink: &mut Sink) {
             }
         }
     }
-    // the connection attempt to the selected proxy fails (refused / timed out / reset / no route): the request fails;
-    // it is never sent somewhere else instead (no direct fallback, no second attempt)
-    for sc in schemes {
-        for px in proxies.iter().flatten() {
-            for kind in [6u8, 2, 3, 7] {
-                let case = SendCase {
-                    method: "POST".into(),
-                    url: format!("{}://example.com/private?token=1", sc),
-                    follow: true,
-                    max_redirections: 5,
-                    max_headers: 100,
-                    compress: false,
-                    proxy: ProxyCfg { http: Some(px.to_string()), https: Some(px.to_string()), no_proxy: vec![] },
-                    params: vec![],
-                    pre: vec![Step::Header("Authorization".into(), b"Bearer s3cret-token".to_vec())],
-                    body: BodyR::Text("secret body".into()),
-                    post: vec![],
-                    hops: vec![(vec![Seg::Data(OK_RESPONSE.to_vec())], None), (vec![Seg::Data(OK_RESPONSE.to_vec())], None)],
-                    plain_tunnel: false,
-                };
-                set_dial_failure(Some((0, kind)));
-                let obs = run_send(&case);
-                set_dial_failure(None);
-                let pu = url::Url::parse(px).unwrap();
-                let o: Result<(), (String, String)> = (|| {
-                    let h = obs.hops.first().ok_or(("no-dial".to_string(), "no connection attempt".to_string()))?;
-                    if h.dial.host.trim_matches(|c| c == '[' || c == ']') != pu.host_str().unwrap() || h.dial.port != pu.port_or_known_default().unwrap() {
-                        return Err(("wrong-peer-proxy-down".into(), format!("first dial {}:{}", h.dial.host, h.dial.port)));
-                    }
-                    if obs.hops.len() != 1 {
-                        let d = &obs.hops[1];
-                        return Err(("fallback-after-proxy-dial-failure".into(), format!("the proxy {} could not be reached; the client then dialled {}://{}:{} and wrote {} bytes there", px, d.dial.scheme, d.dial.host, d.dial.port, d.written.len())));
-                    }
-                    match &obs.fin {
-                        FinalObs::Err(_) => Ok(()),
-                        f => Err(("proxy-dial-failure-not-reported".into(), format!("{:?}", f))),
-                    }
-                })();
-                sink.push(Case { tags: vec!["mode=proxy-unreachable".into(), format!("scheme={}", sc), format!("kind={}", kind)], op: "nop proxy-unreachable".into(), impl_line: "nop".into(), oracle: o });
-            }
-        }
-    }
+    proxy_unreachable_cases(sink);
     // real sockets: one host name, two ports, requests one after the other on this thread — each goes to the port its
     // URL names (nothing remembered about the name from the previous connection may redirect it)
     {
